@@ -88,6 +88,8 @@ def run_one(mid, checks, confirm):
             res["outputs"][c] = lines[:3]
             (res["detected_by"] if rc != 0 and any(l.startswith("VIOLATION") for l in lines) else res["missed_by"]).append(c)
     finally:
+        # mutant builds fill the Go build cache quickly (it reached 130 GB once): drop entries not used for three hours
+        sh("find ${GOCACHE:-$HOME/.cache/go-build} -type f -mmin +180 -delete 2>/dev/null")
         sh("git -C /repo worktree remove --force %s" % wt)
         shutil.rmtree(wt, ignore_errors=True)
         shutil.rmtree(cache, ignore_errors=True)
